@@ -438,10 +438,11 @@ def hist_check(prop, tier, seed, runs, workers, secs):
     fault_kinds = {
         "verifier_veto": counters.get("fault_verifier_veto_fired", 0),
         "jit_page_alloc_fail": counters.get("fault_jit_page_alloc_fail_fired", 0),
+        "jit_mprotect_fail": counters.get("fault_jit_mprotect_fail_fired", 0),
     }
     level_rule = (
         "Each evaluation is one seeded API history (5-%d operations over one VM kind, swarm-configured, with injected verifier " % cfg["max_ops"] +
-        "vetoes and JIT code-page allocation failures) executed against the real VM, an abstract model and a fresh single-use VM. "
+        "vetoes, JIT code-page allocation failures and mprotect(PROT_EXEC) failures) executed against the real VM, an abstract model and a fresh single-use VM. "
         "A run is non-trivial if it contains a successful load, a successful compilation and an execution after a state-changing call; "
         "distinct_nontrivial counts distinct history signatures (hash of the sequence of (operation kind, outcome, abstract state)) among non-trivial runs."
     )
